@@ -232,6 +232,12 @@ def _mesh_worker(spec, obs):
                     fail(f"extract(combine(subs))[{i}] != subs[{i}] with ghost cells")
                     break
 
+    # ---- split_field_data_mpi / combine_field_data_mpi with emulated transport -----------------
+    if n <= 12:
+        for ghost, shp in ((False, shape), (True, shape_full)):
+            for p in mpi_split_combine(mesh, field_codes(shp, 0), ghost):
+                fail(p)
+
     # ---- fields and collections -------------------------------------------------------------
     if spec.get("fields"):
         dim = grid.dim
@@ -359,6 +365,45 @@ def _mesh_worker(spec, obs):
     if sorted(obs["id_back"]) != list(range(n)) or obs["id_back"] != list(range(n)):
         fail("_idx2id(_id2idx(i)) != i")
     return obs
+
+
+def mpi_split_combine(mesh, codes, ghost):
+    """`split_field_data_mpi` on every (pretended) rank and `combine_field_data_mpi` back on the
+    main rank, with send/recv replaced by a mailbox; returns the list of problems"""
+    from pde.tools import mpi
+
+    probs = []
+    n = len(mesh)
+    box = _Mailbox()
+    old = (mpi.mpi_send, mpi.mpi_recv, mpi.rank, mpi.size, mpi.is_main)
+    mpi.mpi_send, mpi.mpi_recv, mpi.size = box.send, box.recv, n
+    try:
+        parts = []
+        for r in range(n):  # the main rank first: it sends the pieces
+            mpi.rank, mpi.is_main = r, r == 0
+            buf = codes if r == 0 else np.full_like(codes, -7)
+            parts.append(mesh.split_field_data_mpi(buf, with_ghost_cells=ghost))
+        for r in range(n):
+            exp = mesh.extract_field_data(codes, r, with_ghost_cells=ghost)
+            if parts[r].shape != exp.shape or not np.array_equal(parts[r], exp):
+                probs.append(f"split_field_data_mpi on rank {r} differs from extract_field_data (ghost={ghost})")
+                break
+        res = None
+        for r in list(range(1, n)) + [0]:  # the main rank last: it collects
+            mpi.rank, mpi.is_main = r, r == 0
+            out = mesh.combine_field_data_mpi(parts[r], with_ghost_cells=ghost)
+            if r == 0:
+                res = out
+            elif out is not None:
+                probs.append(f"combine_field_data_mpi returned data on rank {r}")
+        if res is None or res.shape != codes.shape or not np.array_equal(res, codes):
+            probs.append(f"combine_field_data_mpi(split_field_data_mpi(x)) != x (ghost={ghost})")
+        probs += ["mpi emulation: " + p for p in box.problems]
+        if box.box:
+            probs.append(f"mpi emulation: undelivered messages {sorted(box.box)[:4]}")
+    finally:
+        mpi.mpi_send, mpi.mpi_recv, mpi.rank, mpi.size, mpi.is_main = old
+    return probs
 
 
 def subdivide_worker(args):
